@@ -114,7 +114,15 @@ func dedupLoop(configArgs map[string]string, w *fsnotify.Watcher, completedChann
 				if err := w.Add(dir); err != nil {
 					if errors.Is(err, fs.ErrNotExist) {
 						// A referenced package that could not be loaded because its
-						// directory is gone. This has been reported as an error.
+						// directory is gone or not there yet. This has been reported as
+						// an error. Watch the nearest directory above it that exists, so
+						// that the directory appearing is noticed.
+						for parent := filepath.Dir(dir); ; parent = filepath.Dir(parent) {
+							err := w.Add(parent)
+							if err == nil || !errors.Is(err, fs.ErrNotExist) || parent == filepath.Dir(parent) {
+								break
+							}
+						}
 						continue
 					}
 					completedChannel <- err
